@@ -214,6 +214,14 @@ def gen_cases(tier: str, seed: int) -> List[Dict]:
     v = S.make_poly_spec("a", names, exps, (2, 3), rng, 4, mode="raw")
     v["view"] = "T"
     add("unary-all", [v])
+    # native dtype layer: coefficient types the constructors may want to convert (foreign byte order, narrow, unsigned): a conversion
+    # done in place on the caller's array shows as a byte difference in the snapshot
+    for dt in [">f8", ">i8", ">u4", "float32", "int16", "uint64", ">c16", "float16"]:
+        a = S.extreme_poly_spec(names, exps, (2,), dt, rng, zero_prob=0.1)
+        b = {"kind": "array", "shape": [2], "slots": [rng.choice(S.dtype_extremes(dt)[-3:]) for _ in range(2)], "dtype": a["dtype"]}
+        add("binary-all", [a, b], nodiv=True, tag_dtype=dt)
+        add("binary-all", [b, a], nodiv=True, tag_dtype=dt)
+        add("unary-all", [S.extreme_poly_spec(names, exps, (2, 2), dt, rng, zero_prob=0.1)], tag_dtype=dt)
     # raising calls
     add("raising", [S.make_poly_spec("a", names, exps, (2,), rng, 3, mode="raw"), S.make_poly_spec("b", names, exps, (3,), rng, 3, mode="raw")])
     add("raising", [S.make_poly_spec("a", ("q0",), [[0], [1]], (2, 2), rng, 3, mode="raw"), S.make_poly_spec("b", ("q1",), [[1]], (3,), rng, 2, mode="raw")])
